@@ -35,7 +35,7 @@ def run_cases(ctx, n, tag_prefix):
 
         def gate_a():
             a_in.set()
-            b_done.wait(5)
+            b_done.wait(60)
             return "passed"
 
         def gate_b():
@@ -50,11 +50,11 @@ def run_cases(ctx, n, tag_prefix):
 
         ta = threading.Thread(target=thread_a)
         ta.start()
-        reached = a_in.wait(5)
+        reached = a_in.wait(60)
         out["b"] = world.event(e2.mk_frame("/app/m.py", "g", 7 if same_tp else 9, loc_b), "line")
         b_id = threading.get_ident()
         b_done.set()
-        ta.join(10)
+        ta.join(60)
         j = dict(template=tpl, collecting=collecting, same_tracepoint=same_tp,
                  schedule="A parked inside field %d of %d while B evaluates its whole message" % (nf_before + 1, len(fields)))
         ctx.case(j, nontrivial=True, bucket="two-thread log fields")
